@@ -292,6 +292,21 @@ func cmdStoreExec(args []string) error {
 				} else {
 					ans = fmt.Sprint(b)
 				}
+			case "D":
+				ans = dumpStore(store)
+			case "X":
+				text := ""
+				cfg := runCfg{chanSize: 1, bulkSize: 1}
+				for _, w := range f[1:] {
+					if strings.HasPrefix(w, "text=") {
+						text, _ = unhx(strings.TrimPrefix(w, "text="))
+					}
+					if strings.HasPrefix(w, "cfg=") {
+						cfg = parseCfg(strings.TrimPrefix(w, "cfg="))
+					}
+				}
+				res, _ := runWithCfg(store, text, cfg)
+				ans = res.cls
 			case "Q":
 				text := ""
 				cfg := runCfg{chanSize: 1, bulkSize: 1}
